@@ -458,6 +458,9 @@ func main() {
 		if co.res.startErr {
 			dist["start:rejected"]++
 		}
+		if co.h.VariantUnset {
+			dist["start:variant-left-unset"]++
+		}
 		dist[fmt.Sprintf("segments_published:%s", bucket(segs))]++
 		dist[fmt.Sprintf("rotations:%s", bucket(len(co.res.rotations)))]++
 		for _, rc := range co.res.results {
